@@ -420,6 +420,12 @@ func check(propID, tier string) int {
 	for k, v := range b.extra {
 		cov["x_"+k] = v
 	}
+	for h, m := range b.counts {
+		cov["count_"+h] = m
+	}
+	if len(b.distinct2) > 0 {
+		cov["distinct_preemption_pairs"] = len(b.distinct2)
+	}
 	ev := map[string]any{
 		"property_id": propID,
 		"tier":        tier,
